@@ -21,6 +21,23 @@ import (
 
 const Root = "/verif"
 
+// Out is where binaries, evidence, replays and scratch files go (default Root);
+// Repo is the tree under test (default /repo). Both can be redirected through
+// VERIF_OUT / VERIF_REPO so that tools/seed_run.sh can run a check against a
+// scratch worktree carrying a seeded change without touching /repo or the
+// committed evidence. Registered commands never set them.
+var (
+	Out  = envOr("VERIF_OUT", Root)
+	Repo = envOr("VERIF_REPO", "/repo")
+)
+
+func envOr(k, d string) string {
+	if v := os.Getenv(k); v != "" {
+		return v
+	}
+	return d
+}
+
 // Violation is one failing case. Key identifies the failing clause and the
 // class of input (it is what known_findings.txt is matched against); Sub and
 // Case are what `replay` needs to re-run exactly this case.
@@ -296,9 +313,9 @@ func (r *Run) Finish() int {
 	if ev.Assumptions == nil {
 		ev.Assumptions = []string{}
 	}
-	os.MkdirAll(filepath.Join(Root, "evidence"), 0o755)
+	os.MkdirAll(filepath.Join(Out, "evidence"), 0o755)
 	b, _ := json.MarshalIndent(ev, "", " ")
-	if err := os.WriteFile(filepath.Join(Root, "evidence", r.ID+".json"), b, 0o644); err != nil {
+	if err := os.WriteFile(filepath.Join(Out, "evidence", r.ID+".json"), b, 0o644); err != nil {
 		fmt.Println("ENGINE-ERROR: cannot write evidence:", err)
 		return 2
 	}
@@ -327,9 +344,9 @@ func (r *Run) Finish() int {
 	if len(r.violations) == 0 {
 		return 0
 	}
-	os.MkdirAll(filepath.Join(Root, "replays"), 0o755)
+	os.MkdirAll(filepath.Join(Out, "replays"), 0o755)
 	for i, v := range r.violations {
-		p := filepath.Join(Root, "replays", fmt.Sprintf("%s-%d.json", r.ID, i))
+		p := filepath.Join(Out, "replays", fmt.Sprintf("%s-%d.json", r.ID, i))
 		b, _ := json.MarshalIndent(v, "", " ")
 		os.WriteFile(p, b, 0o644)
 		fmt.Printf("VIOLATION property=%s replay=%s\n", r.ID, p)
